@@ -121,6 +121,14 @@ fn rule_variants(name: &str, kind: RuleKind, k: usize) -> Vec<String> {
     } else {
         v.push(f(4).to_string());
     }
+    // labels at the limits of a DNS label and beyond (63, 64, 200 bytes) in the position right of / at the rule's leftmost label
+    for (i, n) in [63usize, 64, 200].into_iter().enumerate() {
+        if (k + i) % 3 == 0 {
+            let long = "l".repeat(n);
+            v.push(format!("{long}.{name}"));
+            v.push(format!("{}.{long}.{name}", f(1)));
+        }
+    }
     v
 }
 
@@ -157,7 +165,7 @@ fn table_paths<T: public_suffix::Table>(_: &public_suffix::ListProvider<T>) -> V
 
 pub fn run(ctx: &mut Ctx) {
     let fs = ctx.first_shard();
-    ctx.rule = "sweep: every rule of public_suffix_list.dat (A-label form) as itself, with 1-3 labels prepended, with its leading label removed and replaced, and with each of the list's most frequent labels (48 in the quick tier, all that occur twice in the thorough tier) placed directly below it; every node path of the compiled table (read through the public Table constants) as a name and with one more label; random: 1-8 labels from the list's label vocabulary and fresh labels, optionally on top of a list rule; structural: arbitrary strings (ASCII/Unicode/empty labels/long/mixed case). Non-trivial = canonical name whose prevailing rule is not the implicit '*'; distinct by name.".into();
+    ctx.rule = "sweep: every rule of public_suffix_list.dat (A-label form) as itself, with 1-3 labels prepended, with its leading label removed and replaced, with labels of 63 / 64 / 200 bytes below it, and with each of the list's most frequent labels (48 in the quick tier, all that occur twice in the thorough tier) placed directly below it; every node path of the compiled table (read through the public Table constants) as a name and with one more label; random: 1-8 labels from the list's label vocabulary and fresh labels, optionally on top of a list rule; structural: arbitrary strings (ASCII/Unicode/empty labels/long/mixed case). Non-trivial = canonical name whose prevailing rule is not the implicit '*'; distinct by name.".into();
     ctx.assumptions = vec![
         "agreement with the reference is asserted for every name without empty labels; the reference matches labels literally against the list's A-label rules (so upper-case or Unicode labels match no rule, exactly like in a byte-wise table lookup); strings with empty labels get the structural checks only".into(),
         "the reference converts Unicode rules of the .dat with the idna crate (UTS-46 to-ASCII)".into(),
